@@ -127,3 +127,75 @@ def mkdict(pairs):
 
 def log(*a):
     print(*a, file=sys.stderr)
+
+
+# ---------------------------------------------------------------------------
+# database environment: the SQL model under CrossHair, real SQLite in replay
+
+class DB:
+    """A fresh, empty wn database."""
+
+    def __init__(self):
+        import wn
+        if SYM:
+            from vf import sqlmodel
+            self.conn = sqlmodel.install(sqlmodel.MConn())
+            self.dir = None
+        else:
+            import wn._db
+            for c in list(wn._db.pool.values()):
+                try:
+                    c.close()
+                except Exception:  # noqa: BLE001
+                    pass
+            wn._db.pool.clear()
+            self.dir = tempfile.mkdtemp(prefix='vf-db-', dir=_TMP[0] if _TMP else None)
+            wn.config.data_directory = self.dir
+            self.conn = wn._db.connect()
+
+    def tables(self):
+        if SYM:
+            return list(self.conn.db.tables)
+        return [r[0] for r in self.conn.execute(
+            "select name from sqlite_master where type='table'")]
+
+    def dump(self):
+        """{table: [rows]} in table order (model) / rowid order (SQLite)."""
+        if SYM:
+            return self.conn.db.snapshot()
+        out = {}
+        for t in self.tables():
+            out[t] = [list(r) for r in self.conn.execute(f'SELECT * FROM {t} ORDER BY rowid')]
+        return out
+
+    def in_transaction(self):
+        return self.conn.in_transaction
+
+    def insert_rows(self, table, rows):
+        """Fill a table directly (table-symbolic harnesses).  No constraint checking."""
+        if SYM:
+            self.conn.db.tables[table][1].extend([list(r) for r in rows])
+        else:
+            self.conn.execute('PRAGMA foreign_keys = OFF')
+            for r in rows:
+                self.conn.execute(
+                    f"INSERT INTO {table} VALUES ({','.join('?' * len(r))})", list(r))
+            self.conn.commit()
+
+
+def quiet_add(resource):
+    import wn
+    wn.add_lexical_resource(resource, progress_handler=None)
+
+
+def stub_normalizer(fn=None):
+    """Replace wn's normalize_form (str.lower + unicodedata: C code that CrossHair can only
+    run on concrete strings) by *fn* (identity by default) in wn._add and wn._core.  Listed
+    as a stub wherever it is used; no-op in real mode unless *fn* is given explicitly."""
+    if not SYM and fn is None:
+        return
+    import wn._add
+    import wn._core
+    f = fn or (lambda s: s)
+    wn._add.normalize_form = f
+    wn._core.normalize_form = f
